@@ -3,4 +3,4 @@ From DV Require Import Base.Outcome Base.Names C14.Gen C14.Model.
 Extraction Language OCaml.
 Extraction "../build/ml/C14/model.ml" c14_nsec_in_range c14_nsec3_in_range c14_supported_nsec3_hash
   c14_label_to_hash c14_nodata c14_not_exists c14_nxdomain c14_nodata_wildcard c14_sig_time_ok
-  c14_wildcard_ce c14_mkG positive_answer_state mkA check_sig mkS.
+  c14_wildcard_ce c14_mkG positive_answer_state mkA check_sig mkS negative_msg_state answer_msg_state.
